@@ -204,7 +204,7 @@ impl Prop for P {
         }
     }
     fn cases(tier: Tier) -> u64 {
-        tier.pick(30_000, 300_000)
+        tier.pick(60_000, 600_000)
     }
     fn fixed_cases(tier: Tier) -> Vec<Case> {
         let mut v = Vec::new();
